@@ -512,3 +512,23 @@ PROPS['C19']['sources'] = ['e_misc/src/c19.rs']
 PROPS['C14']['sources'] = ['e_hex/src/main.rs']
 PROPS['C15']['sources'] = ['e_alloc/src/main.rs']
 PROPS['C16']['sources'] = ['e_alloc/src/main.rs']
+PROPS['C01']['level_text'] = "Every (element layout, length) pair of a stated finite family is evaluated by rustc's own layout computation on the real type definitions and compared with [T; N]; complete for every N <= 1024 (every digit pattern of the storage recursion to depth 10) and a lattice over every binary depth to 62; real values are built and their element addresses walked for small and boundary lengths. Exploration is the right level: the statement quantifies over inputs (layouts x lengths), not histories."
+PROPS['C02']['level_text'] = 'Every (length, source length, entry point, element type) of a stated lattice, and the full matrix of shared and mutable views, is executed on the real code with pointer/length oracles on canaried buffers; complete in the source length around N for N <= 13. The quantifier is over inputs, so bounded exhaustive exploration is the matching level.'
+PROPS['C03']['level_text'] = 'Explicit-state model checking: breadth-first search to fixpoint over pools of live containers, applying every one of 69 ownership-moving operations from every reachable state on the real code (stateless replay of histories, canonical state key with a soundness argument), each step compared with a Vec-of-ids reference model and a drop ledger, plus quiescence from every state. The property quantifies over all finite histories; within the stated caps on length, pool size and live elements every history is covered because BFS closes the state space.'
+PROPS['C04']['level_text'] = "Fault enumeration: for every callback-bearing operation, receiver form, length and element-type combination of a stated lattice, every call into caller code is made to panic in its own execution, and a drop ledger decides exactly-once. One fault per execution is the property's quantifier (a second panic while unwinding aborts by language rule)."
+PROPS['C05']['level_text'] = "Fault enumeration: for every internally-dropping operation from every reachable iterator position (and the builder/consumer/collecting/deserialising error paths), every choice of the single element whose destructor panics is executed; the run continues after the caught panic and the ledger decides 'never twice, never observed after drop'."
+PROPS['C06']['level_text'] = 'Explicit-state model checking of the real iterator against two reference queues: BFS over (origin, front, len) states with every operation and argument from every state, consuming operations evaluated from every state, closed-form and stateless cross-checks as vacuity guards. The property quantifies over all interleavings; for each listed K the whole state graph is covered.'
+PROPS['C07']['level_text'] = "Fault enumeration over the environment of a collecting call: the source iterator's item count, size-hint policy, fusedness and a panic at every next() call are chosen by the enumerator, for all four entry points."
+PROPS['C08']['level_text'] = 'Bounded exhaustive exploration of (operation, receiver/argument form, element-type combination, length) with recording closures; the statement is about inputs and configurations (forms), which the lattice enumerates completely.'
+PROPS['C09']['level_text'] = 'Bounded exhaustive exploration, complete for N <= 8 in every K, M and index, against the Vec operations, with a ledger and address oracles; an AddressSanitizer substrate monitors every execution because an over-read that is then discarded is invisible to value oracles.'
+PROPS['C10']['level_text'] = 'Bounded exhaustive exploration of (N, L, form, element type) with pointer/length oracles, complete in L up to 4N+3 for N < 100 plus slices longer than u32::MAX of zero-sized elements; the same calls are executed by the const evaluator under C18.'
+PROPS['C11']['level_text'] = 'Bounded exhaustive exploration of every (N, M) <= 6 plus boundary pairs, in the three receiver forms, with identity, ledger and address oracles.'
+PROPS['C12']['level_text'] = 'Bounded exhaustive exploration of a generated accept/reject program family executed by rustc; every reject program is paired with an accept twin that differs in one length, bound or lifetime, and counts only if rejected with an error of the expected class. The quantifier is over programs; the claim is the generated grammar at the stated bound, not all programs.'
+PROPS['C13']['level_text'] = 'Bounded exhaustive exploration: all pairs of arrays over three-letter alphabets for N <= 4 (incl. incomparable and same-object operands) and difference-position families for larger N, against the slices; hashing is compared as a sequence of hasher calls.'
+PROPS['C14']['level_text'] = 'Bounded exhaustive exploration of (N, byte-at-index pattern, precision, case) on two builds of the crate (faster-hex off/on) against a per-byte reference, with every byte value at every index and every precision around each internal threshold.'
+PROPS['C15']['level_text'] = "Bounded exhaustive exploration of (conversion, N, element, source length, capacity or hint policy) under a recording global allocator; block identity and allocator silence decide 'reuses the allocation', child processes on a 256 KiB stack decide the large constructions."
+PROPS['C16']['level_text'] = "Fault enumeration under a recording allocator: every case's allocator log is judged, a panic is injected at every closure call, and every allocator request of the operation is made to fail in turn in a child process whose way of dying is the oracle."
+PROPS['C17']['level_text'] = 'Fault enumeration over the deserialisation environment (scripted Deserializer/SeqAccess: count x up-front hint x later hints x element error at every index) plus real formats and a recording Serializer.'
+PROPS['C18']['level_text'] = "Bounded exhaustive exploration of generated const items executed by rustc's const evaluator (E0080 on UB or failed expectation) and then at run time; must-fail items guard the negative side."
+PROPS['C19']['level_text'] = 'Bounded exhaustive exploration of (N, element type, prior contents) for zeroize and (N, element type) for the constant default in const, static and run-time positions, for every N <= 65 and boundary lengths.'
+PROPS['C20']['level_text'] = 'Bounded exhaustive exploration of generated macro invocations: rustc decides the inferred length type against explicit annotations, the built program decides contents and evaluation order.'
